@@ -1,5 +1,6 @@
 import Ccp.Model.IPValX
 import Ccp.Proofs.IPVal
+import Ccp.Proofs.IPText
 /-!
 Helper lemmas for the operands at the edge of the value model (`Ccp.Model.IPValX`). Core Lean only.
 -/
@@ -7,6 +8,13 @@ namespace Ccp.IPValX
 open Ccp.Py Ccp.IPVal
 
 instance {α : Type} [DecidableEq α] : DecidableEq (Except XErr α) := fun a b =>
+  match a, b with
+  | .ok x, .ok y => if h : x = y then isTrue (by rw [h]) else isFalse (by intro e; cases e; exact h rfl)
+  | .error x, .error y => if h : x = y then isTrue (by rw [h]) else isFalse (by intro e; cases e; exact h rfl)
+  | .ok _, .error _ => isFalse (by intro e; cases e)
+  | .error _, .ok _ => isFalse (by intro e; cases e)
+
+instance {α : Type} [DecidableEq α] : DecidableEq (Except SErr α) := fun a b =>
   match a, b with
   | .ok x, .ok y => if h : x = y then isTrue (by rw [h]) else isFalse (by intro e; cases e; exact h rfl)
   | .error x, .error y => if h : x = y then isTrue (by rw [h]) else isFalse (by intro e; cases e; exact h rfl)
@@ -71,5 +79,26 @@ theorem sameVersion_adjacent (pre : List (Nat × Net)) (a b : Nat × Net) (post 
     | cons q pre' =>
       simp only [List.cons_append] at ih ⊢
       rw [sameVersion_cons p q, ih, Bool.and_false]
+
+/-! ## `str` arguments of the setters -/
+
+/-- `int(str(k))` for every integer -/
+theorem pyInt_intToDec (k : Int) : pyInt (intToDec k) = some k := by
+  cases k with
+  | ofNat n =>
+    simp only [intToDec]
+    rw [IPText.pyInt_digits _ (IPText.toDec_ne_nil n) (IPText.toDec_all n), IPText.ofDigits_toDec]
+    rfl
+  | negSucc n =>
+    simp only [intToDec]
+    unfold pyInt
+    have hs : ∀ c ∈ '-' :: toDec (n + 1), isSpace c = false := by
+      intro c hc
+      rcases List.mem_cons.mp hc with rfl | hc
+      · decide
+      · exact IPText.isSpace_of_isDigit c (IPText.toDec_all _ c hc)
+    rw [IPText.strip_noSpace _ hs]
+    simp only [IPText.ofDigits_toDec, Option.map_some]
+    rfl
 
 end Ccp.IPValX
